@@ -4,6 +4,7 @@ package main
 
 import (
 	"encoding/json"
+	"fmt"
 	"sort"
 	"strings"
 )
@@ -272,4 +273,126 @@ func joinNonAbsent(s *EnumSpec, v []int, pre string, names ...string) string {
 		}
 	}
 	return out
+}
+
+// AgedSpec is the second pass of an input enumeration: instead of one fresh world per case, all
+// cases of one configuration are fed, one after the other, into ONE long-lived world, and every
+// observation is judged by the same oracle. A case that holds on a fresh world but fails here
+// depends on what the proxy processed earlier (a cache or memo gone stale, an object shared
+// between messages and mutated later, state leaking between listeners) although the reference
+// decision is a function of the message and the configuration alone.
+type AgedSpec struct {
+	Spec  *EnumSpec
+	Group func(v []int) string // cases with equal key share a world; "" = not part of this pass
+	Open  func(v []int) any
+	Close func(w any)
+	Eval  func(w any, v []int) (clause, detail string)
+}
+
+type AgedCase struct {
+	Group   string            `json:"group"`
+	Vectors [][]int           `json:"vectors"` // fed in this order; the last one fails
+	Values  map[string]string `json:"values_of_failing_case"`
+}
+
+func (a *AgedSpec) runSeq(vs [][]int) (string, string) {
+	w := a.Open(vs[0])
+	defer a.Close(w)
+	cl, d := "", ""
+	for i, v := range vs {
+		cl, d = a.Eval(w, v)
+		if cl != "" && i != len(vs)-1 {
+			return "", "" // an earlier case of the sequence fails: not the scenario asked for
+		}
+	}
+	return cl, d
+}
+
+func (a *AgedSpec) Run(c *Ctx) {
+	s := a.Spec
+	n := len(s.Feats)
+	dom := make([]int, n)
+	for i, f := range s.Feats {
+		dom[i] = len(f.Vals)
+		if !c.Thorough() && f.Quick > 0 && f.Quick < dom[i] {
+			dom[i] = f.Quick
+		}
+	}
+	groups := map[string][][]int{}
+	var order []string
+	v := make([]int, n)
+	for {
+		if s.Valid == nil || s.Valid(v) {
+			if k := a.Group(v); k != "" {
+				if _, ok := groups[k]; !ok {
+					order = append(order, k)
+				}
+				groups[k] = append(groups[k], append([]int(nil), v...))
+			}
+		}
+		i := n - 1
+		for ; i >= 0; i-- {
+			v[i]++
+			if v[i] < dom[i] {
+				break
+			}
+			v[i] = 0
+		}
+		if i < 0 {
+			break
+		}
+	}
+	for gi, k := range order {
+		if !c.Mine(int64(gi)) {
+			continue
+		}
+		vs := groups[k]
+		w := a.Open(vs[0])
+		start := 0
+		for i, v := range vs {
+			if c.Expired() {
+				a.Close(w)
+				return
+			}
+			cl, detail := a.Eval(w, v)
+			c.Res.Evaluations++
+			c.Res.Executions++
+			c.Res.Nontrivial++
+			c.Count("aged_world_cases", 1)
+			if cl == "" {
+				continue
+			}
+			// restart the world (it may be damaged) and find a short history that reproduces the failure
+			a.Close(w)
+			hist := vs[start : i+1]
+			best := hist
+			for k2 := 1; k2 < len(hist); k2 *= 2 {
+				cand := hist[len(hist)-k2-1:]
+				if cl2, _ := a.runSeq(cand); cl2 != "" {
+					best = cand
+					break
+				}
+			}
+			alone, _ := a.runSeq([][]int{v})
+			clause := "history-dependent-" + cl
+			if alone != "" {
+				clause = cl
+			}
+			cs := AgedCase{Group: k, Vectors: best, Values: s.caseOf(v).Vals}
+			c.Violate(clause+"|aged|"+k, clause, fmt.Sprintf("configuration group %s: after %d earlier messages in the same world (alone on a fresh world: %q)\n%s", k, len(best)-1, alone, detail), cs)
+			w = a.Open(vs[0])
+			start = i + 1
+		}
+		a.Close(w)
+	}
+}
+
+// Replay re-runs the recorded sequence.
+func (a *AgedSpec) Replay(raw json.RawMessage) (string, bool) {
+	var cs AgedCase
+	if err := json.Unmarshal(raw, &cs); err != nil || len(cs.Vectors) == 0 {
+		return "", false
+	}
+	cl, _ := a.runSeq(cs.Vectors)
+	return cl, true
 }
